@@ -159,6 +159,16 @@ class Workload:
                 if spec.s2c_err:
                     self.spawn("we-s%d" % idx, self._writer("s", sch, spec.s2c_err, True))
                     self.spawn("re-c%d" % idx, self._reader("c", kerr, ch, lambda s=spec: len(s.s2c_err), True))
+            elif spec.combine_at == -1:
+                # the server sends everything and EOF first; only then does the client switch combining on
+                t1 = self.spawn("w-s%d" % idx, self._writer("s", sch, spec.s2c_out, False))
+                t2 = self.spawn("we-s%d" % idx, self._writer("s", sch, spec.s2c_err, True))
+
+                def eof_sender(sch=sch, t1=t1, t2=t2):
+                    self.sim.join_task(t1, self.timeout); self.sim.join_task(t2, self.timeout)
+                    sch.shutdown_write()
+                self.spawn("eof-s%d" % idx, eof_sender)
+                self.spawn("rc-c%d" % idx, self._combine_after_eof_reader(idx, ch, spec))
             else:
                 self.spawn("w-s%d" % idx, self._writer("s", sch, spec.s2c_out, False))
                 self.spawn("we-s%d" % idx, self._writer("s", sch, spec.s2c_err, True))
@@ -217,6 +227,23 @@ class Workload:
                         self.stderr_after_combine = bytes(x)
                 except socket.timeout:
                     pass
+        return run
+
+    def _combine_after_eof_reader(self, idx, ch, spec):
+        sim = self.sim
+        out = self.received[(idx, "c", "out")]
+
+        def run():
+            waited = 0.0
+            while not ch.eof_received and waited < self.timeout:
+                sim.sleep(0.05); waited += 0.05
+            self.api.call("c", "set_combine_stderr", ch.set_combine_stderr, True)
+            self.combined_at = (0, 0)
+            while True:
+                x = self.api.call("c", "recv", ch.recv, 65536)
+                if not x:
+                    break
+                out.extend(x)
         return run
 
     def spawn(self, name, fn):
